@@ -43,29 +43,59 @@ THEOREMS = ["OllamaVerif.C18." + t for t in (
     "minP_is_threshold_filter", "pick_first_index", "sample_never_panics", "sample_never_panics_fixed",
     "sample_admissible_partial", "sample_admissible_fixed_partial", "never_neg_inf", "result_mem_filters",
     "pick_search_spec",
-    "deterministic", "hist_nth", "Sample_indep_r", "stream_of_seed", "F18_nan_instead_of_token", "F18_guard_fails",
+    "deterministic", "hist_nth", "Sample_indep_r", "stream_of_seed", "grammar_step_spec",
+    "grammar_retry_admissible_partial", "grammar_retry_admissible_fixed_partial", "grammar_retry_greedy",
+    "masked_not_neginf_accepted", "maskLogits_get", "F18_nan_instead_of_token", "F18_guard_fails",
     "F18b_greedy_keeps_leading_nan", "zOps_laws")] + [
     "OllamaVerif.Sampler.pick_spec", "OllamaVerif.Sampler.afterTopK_spec", "OllamaVerif.Sampler.afterTopK_spec_fix", "OllamaVerif.Sampler.bsearch_spec",
 ]
-OVERLAY = {"sample/zz_verif_c18_test.go": "sample/zz_verif_c18_test.go"}
+OVERLAY = {"sample/zz_verif_c18_test.go": "sample/zz_verif_c18_test.go",
+           "sample/zz_verif_c18_grammar_test.go": "sample/zz_verif_c18_grammar_test.go"}
 
 
 def normalize(s):
     return re.sub(r"panic:\S+", "panic", s)
 
 
+def f18c_probe(ctx):
+    """Finding F18c kills the process, so its reproduction runs in a go test process of its own."""
+    rc, out, outdir = ctx.go_test("./sample/", OVERLAY, "^TestVerifC18F18c$")
+    j = os.path.join(outdir, "f18c.txt")
+    if not os.path.exists(j):
+        return []
+    parts = open(j).read().rstrip("\n").split("\t")
+    if parts[0] == "begin" and rc != 0:
+        m = re.search(r"what\(\):\s*([^\n]*)", out)
+        why = m.group(1) if m else out[-300:].replace("\n", " ")
+        return [{"kind": "grammar-accept-rejected-crash", "case": parts[1],
+                 "detail": "temperature 0, grammar accepts only a token whose logit is -Inf: the process died inside Sample: " + why}]
+    if parts[0] == "returned" and parts[2].startswith("ok"):
+        return [{"kind": "grammar-rejected-token", "case": parts[1],
+                 "detail": "temperature 0, every accepted token has logit -Inf, Sample returned " + parts[2]}]
+    return []
+
+
 def run(ctx):
     ctx.lean_check(MODULES, THEOREMS)
-    env = {"VERIF_N": ctx.scale(1500, 30000), "VERIF_C18_FIX": FIX,
+    env = {"VERIF_N": ctx.scale(1500, 30000), "VERIF_NG": ctx.scale(250, 5000), "VERIF_C18_FIX": FIX,
            "VERIF_CORPUS": core.ROOT + "/corpus/C18"}
     if ctx.replay:
         env["VERIF_REPLAY"] = ctx.replay_line_file()
     rc, out, outdir = ctx.go_test("./sample/", OVERLAY, "^TestVerifC18$", env=env)
     if rc != 0:
-        ctx.violation("driver-failed", "", out[-1500:], no_input=True)
+        cur = os.path.join(outdir, "current.txt")
+        if os.path.exists(cur):
+            # the process died inside a real grammar call: the journalled history is the failing input
+            ctx.violation("driver-crashed", open(cur).read().strip(),
+                          "the test process died inside Sample on this grammar history: " + out[-600:].replace("\n", " "))
+        else:
+            ctx.violation("driver-failed", "", out[-1500:], no_input=True)
     ctx.read_stats(outdir)
     ctx.l1(outdir, normalize=normalize)
-    ctx.classify(ctx.l2(outdir))
+    failures = ctx.l2(outdir)
+    if not ctx.replay:
+        failures += f18c_probe(ctx)
+    ctx.classify(failures)
     ctx.assumptions += [
         "IEEE-754 single precision comparison is a strict weak order on non-NaN values (the theorems' carrier law); "
         "the per-run contracts (scale/softmax order preservation, -Inf->0, max->positive, monotone cumulative sums, "
